@@ -5,6 +5,9 @@ Import ListNotations.
 Close Scope Q_scope.
 Open Scope nat_scope.
 From LV Require Import Base.ListAux Goose.Stopper Goose.StopperPos.
+(* support library of the source tie (tools/py2gallina_c20.py, harness/lv/c20_tie.py): required (not imported) here so
+   that the targeted build of the C20 check compiles it *)
+From LV Require Goose.GenC20Tie.
 
 Definition alphabet : list Q := [0%Q; 1%Q; 2%Q; 3%Q].
 Fixpoint hists (n : nat) : list (list Q) :=
